@@ -1,0 +1,17 @@
+//go:build verif
+
+package signing
+
+// Contracts for the deductive checker in /verif (comment-only; compiled only under the verif tag).
+
+// Lindell22 aggregation releases a signature only after the single-party verifier accepted exactly that
+// signature under the group public key for the message, and only for a signer set the MSP accepts.
+//@ func (*Aggregator).Aggregate
+//@   property C01, C04
+//@   opt trustpre=on
+//@   ensures err == nil ==> a.verifier.Verify(result, a.pkm.PublicKey(), message) == nil
+//@   ensures err == nil ==> a.pkm.MSP().Accepts(hashset.NewComparable(partialSignatures.Keys()).Freeze().List())
+//@   loop range(partialSignatures.Iter())
+//@     invariant true
+//@   loop range(partialSignatures.Iter())#2
+//@     invariant true
